@@ -70,6 +70,7 @@ type Live struct {
 	Ins  [][]byte // input buffers passed to the library which the caller may overwrite afterwards
 	Outs [][]byte // byte slices handed back by Marshal / Format / AppendFormat
 	Vals []any    // pointers to values filled by Unmarshal*
+	Errs []error  // errors handed back (a SemanticError carries the JSON value that could not be converted)
 }
 
 // snapshot reads every byte reachable from the retained results.
@@ -86,6 +87,9 @@ func (l *Live) snapshot() string {
 		r.value(reflect.ValueOf(v))
 		sb.WriteString(r.sb.String())
 		sb.WriteByte('|')
+	}
+	for i, e := range l.Errs {
+		fmt.Fprintf(&sb, "err%d:%s|", i, renderErr(e))
 	}
 	return sb.String()
 }
@@ -149,6 +153,11 @@ func (x *X) keepOut(b []byte) {
 func (x *X) keepVal(p any) {
 	if x.c.retain {
 		x.live.Vals = append(x.live.Vals, p)
+	}
+}
+func (x *X) keepErr(err error) {
+	if x.c.retain && err != nil {
+		x.live.Errs = append(x.live.Errs, err)
 	}
 }
 
